@@ -61,8 +61,21 @@ def spectrum(kind, m, scale):
     elif kind == "rank-deficient":
         keep = max(1, m - 2)
         s = [0.7 ** k for k in range(keep)] + [0.0] * (m - keep)
-    else:  # slow-decay: gaps of a few percent
-        s = [1.0 - 0.04 * k for k in range(m)]
+    elif kind == "steep-tail":
+        # 12 decades inside one array: a few well separated leading values, then 1e-5 ... 1e-12
+        nl = max(1, min(4, m - 2))
+        t = m - nl
+        s = [1.0, 0.6, 0.3, 0.1][:nl] + [10.0 ** -(5.0 + 7.0 * j / max(1, t - 1)) for j in range(t)]
+    elif kind == "near-threshold":
+        # eigenvalue gaps of 1.2e-3 * lambda_1: just above the separation threshold SEP
+        nl = min(3, m)
+        s = [float(np.sqrt(1.0 - 1.2e-3 * j)) for j in range(nl)] + [0.5 ** (k + 1) for k in range(m - nl)]
+    elif kind == "rank-one":
+        s = [1.0] + [0.0] * (m - 1)
+    elif kind == "low-rank":
+        s = [1.0, 0.5] + [0.0] * max(0, m - 2)
+    else:  # slow-decay: gaps of a few percent (beyond 20 values: geometric with ratio 0.9, staying positive and distinct)
+        s = [1.0 - 0.04 * k if k < 20 else 0.24 * 0.9 ** (k - 19) for k in range(m)]
     return [float(scale) * x for x in s[:m]]
 
 
@@ -86,6 +99,16 @@ def dense_of(case):
         return gen.dense_of_sparse_case(case) * float(case.get("vscale", 1.0))
     if fam == "block":
         return block_dense(case)
+    if fam == "zero":
+        return np.zeros(shape)
+    if fam == "tucker":
+        core, fm = tucker_parts(case)
+        return den_tucker(core, fm)
+    if fam == "kruskal":
+        w, F = kruskal_parts(case)
+        return ref.den_kruskal(w, F)
+    if fam == "bigblock":
+        return fold(bigblock_unfolding(case), case["n"], shape)
     raise ValueError(fam)
 
 
@@ -189,6 +212,137 @@ def block_dense(case):
 
 
 # ----------------------------------------------------------------------------------------------------------------
+# round 3: models born as Tucker / Kruskal forms whose factor matrices are exactly special, epsilon-perturbed or
+# generic; the all-zero tensor; large block models
+# ----------------------------------------------------------------------------------------------------------------
+
+EPS_LIST = [1e-12, 1e-10, 1e-9, 3e-9, 1e-8, 1e-7, 1e-6, 1e-5]
+MATRIX_KINDS = ["identity", "permutation", "orthonormal", "diagonal", "unit-columns", "generic"]
+
+
+def structured_matrix(kind, seed, I, J):
+    """I x J matrix of the given structure, a deterministic function of the seed.  identity / permutation / orthonormal
+    have exactly (up to the rounding of one QR) orthonormal columns and need I >= J (np.eye(I, J) serves for I < J too);
+    diagonal = identity with powers of two; unit-columns = generic columns of norm one; generic = small integers."""
+    rng = np.random.default_rng(int(seed))
+    if kind in ("permutation", "orthonormal") and I < J:
+        kind = "generic"
+    if kind == "identity":
+        return np.eye(I, J)
+    if kind == "permutation":
+        p = rng.permutation(I)[:J]
+        A = np.zeros((I, J))
+        A[p, np.arange(J)] = 1.0
+        return A
+    if kind == "orthonormal":
+        return orth(seed, I, J)
+    if kind == "diagonal":
+        return np.eye(I, J) * (2.0 ** rng.integers(-3, 4, size=J))[None, :]
+    if kind == "unit-columns":
+        M = rng.integers(-3, 4, size=(I, J)).astype(float) + 0.5 * np.eye(I, J)
+        nrm = np.linalg.norm(M, axis=0)
+        M[0, nrm == 0] = 1.0
+        return M / np.linalg.norm(M, axis=0, keepdims=True)
+    if kind == "generic":
+        return rng.integers(-4, 5, size=(I, J)).astype(float) + 0.25 * np.eye(I, J)
+    raise ValueError(kind)
+
+
+def _perturbation(seed, I, J):
+    return np.random.default_rng(int(seed) + 7777).uniform(-1.0, 1.0, size=(I, J))
+
+
+def _spec_matrices(spec, rows, cols, stride):
+    """the factor matrices of a Tucker (cols = core shape) or Kruskal (cols = [R]*N) form described by `spec` =
+    dict(kind, seed, eps, pmode): structure `kind`, plus eps * (generic matrix) on every factor (pmode None) or on the
+    factor of mode pmode only"""
+    out = []
+    for k, (I, J) in enumerate(zip(rows, cols)):
+        A = structured_matrix(spec["kind"], spec["seed"] + stride * k, I, J)
+        if spec.get("eps") and (spec.get("pmode") is None or spec["pmode"] == k):
+            A = A + float(spec["eps"]) * _perturbation(spec["seed"] + stride * k, I, J)
+        out.append(A)
+    return out
+
+
+def tucker_parts(case):
+    """core array and factor matrices of the Tucker-born model: core = the model case["core"]; factors by case["tf"];
+    `balance` moves powers of two between the factors and the core without changing the denoted array"""
+    core = dense_of(case["core"])
+    tf = case["tf"]
+    fm = _spec_matrices(tf, tf["rows"], core.shape, 101)
+    if tf.get("balance"):
+        fm = [f * 2.0 ** int(a) for f, a in zip(fm, tf["balance"])]
+        core = core * 2.0 ** (-int(sum(tf["balance"])))
+    return core, fm
+
+
+def kruskal_parts(case):
+    """weights and factor matrices of the Kruskal-born model (case["kf"], case["weights"]); `balance` moves a power of
+    two between weight j and column j of one factor"""
+    kf = case["kf"]
+    shape = case["shape"]
+    R = len(case["weights"])
+    F = _spec_matrices(kf, shape, [R] * len(shape), 17)
+    w = np.array(case["weights"], dtype=float)
+    if kf.get("balance"):
+        for j, a in enumerate(kf["balance"]):
+            F[j % len(F)][:, j] *= 2.0 ** int(a)
+            w[j] *= 2.0 ** (-int(a))
+    return w, F
+
+
+def bigblock_unfolding(case):
+    """mode-n unfolding (I x P) of the large block model: nb rank-one blocks on disjoint row and column sets that
+    together take (nearly) all rows, so every one of the (I-2)*bcols block entries shapes a leading vector; singular
+    values 100 * 0.8**(j/2); `fill` more entries of magnitude 0.02 anywhere outside the last two rows of the row
+    permutation (empty slices)"""
+    shape = tuple(case["shape"])
+    I = shape[case["n"]]
+    P = ref.prod(shape) // I
+    rng = np.random.default_rng(int(case["bseed"]))
+    rows, cols = rng.permutation(I), rng.permutation(P)
+    nb, ncol = int(case["nb"]), int(case["bcols"])
+    base = (I - 2) // nb
+    M = np.zeros((I, P))
+    for j in range(nb):
+        rj, cj = rows[j * base:(j + 1) * base], cols[j * ncol:(j + 1) * ncol]
+        coef = rng.integers(1, 6, size=len(rj)) * rng.choice([-1, 1], size=len(rj))
+        x = rng.integers(1, 10, size=len(cj)) * rng.choice([-1, 1], size=len(cj))
+        t = 100.0 * 0.8 ** (j / 2.0) / np.sqrt(float(np.sum(coef * coef)) * float(np.sum(x * x)))
+        M[np.ix_(rj, cj)] = t * np.outer(coef, x)
+    fill = int(case.get("fill", 0))
+    if fill:
+        fr = rows[rng.integers(0, I - 2, size=fill)]
+        fc = rng.integers(0, P, size=fill)
+        M[fr, fc] += 0.02 * rng.choice([-1.0, 1.0], size=fill)
+    return M * float(case.get("vscale", 1.0))
+
+
+def case_labels(case):
+    """labels of the structure classes of the round-3 families"""
+    out = []
+    for key, pre in (("tf", "factors-"), ("kf", "kfactors-")):
+        sp = case.get(key)
+        if sp:
+            out.append(pre + sp["kind"])
+            if sp.get("eps"):
+                out += [pre + "perturbed", f"{pre}eps={sp['eps']:g}", pre + ("perturbed-all-modes" if sp.get("pmode") is None else "perturbed-one-mode")]
+            else:
+                out.append(pre + "exact")
+            if sp.get("balance"):
+                out.append(pre + "balanced-powers-of-two")
+    if case.get("tf"):
+        rows, J = case["tf"]["rows"], case["core"]["shape"]
+        out.append("factors-" + ("square" if rows == J else ("tall" if all(a >= b for a, b in zip(rows, J)) else "wide")))
+        out.append("core-" + case["core"]["family"])
+    if case.get("kf"):
+        out.append("weights-" + case.get("wkind", "?"))
+        out.append("rank>mode-size" if len(case["weights"]) > min(case["shape"]) else "rank<=mode-sizes")
+    return out
+
+
+# ----------------------------------------------------------------------------------------------------------------
 # holders of the same data
 # ----------------------------------------------------------------------------------------------------------------
 
@@ -207,10 +361,29 @@ def int_dtype_of(case, X):
     return dt
 
 
+def den_tucker(core, factors):
+    """core x_0 A_0 x_1 A_1 ... by one mode product after the other (ref.den_tucker is a single einsum whose cost is the
+    product of all sizes: fine for small cases, not for mode sizes of 100+)"""
+    A = np.asarray(core, dtype=float)
+    for k, f in enumerate(factors):
+        A = np.moveaxis(np.tensordot(np.asarray(f, dtype=float), A, axes=(1, k)), 0, k)
+    return A
+
+
+def den_sp(S):
+    """dense array of a sparse tensor, vectorised (ref.den loops over the nonzeros in Python)"""
+    A = np.zeros(tuple(int(v) for v in S.shape))
+    if S.subs.size:
+        np.add.at(A, tuple(np.asarray(S.subs).T), np.asarray(S.vals, dtype=float).reshape(-1))
+    return A
+
+
 def den(obj):
     """ref.den, extended to Tucker tensors whose factor matrices are scipy coo matrices (the constructor admits them)"""
-    if isinstance(obj, ttb.ttensor) and any(sparse.issparse(f) for f in obj.factor_matrices):
-        return ref.den_tucker(ref.den(obj.core), [f.toarray() if sparse.issparse(f) else f for f in obj.factor_matrices])
+    if isinstance(obj, ttb.ttensor):
+        return den_tucker(den(obj.core), [f.toarray() if sparse.issparse(f) else f for f in obj.factor_matrices])
+    if isinstance(obj, ttb.sptensor):
+        return den_sp(obj)
     return ref.den(obj)
 
 
@@ -220,8 +393,8 @@ def den_abs(obj):
     if isinstance(obj, ttb.ktensor):
         return ref.abs_kruskal(obj.weights, obj.factor_matrices)
     if isinstance(obj, ttb.ttensor):
-        return ref.den_tucker(np.abs(ref.den(obj.core)), [np.abs(f.toarray() if sparse.issparse(f) else f) for f in obj.factor_matrices])
-    return np.abs(ref.den(obj))
+        return den_tucker(np.abs(den(obj.core)), [np.abs(f.toarray() if sparse.issparse(f) else f) for f in obj.factor_matrices])
+    return np.abs(den(obj))
 
 
 def _same(obj, X):
@@ -258,7 +431,7 @@ def as_tensor(X, case=None):
             T = ttb.tensor(X.copy(order="F"), tuple(X.shape)).permute(p).permute(np.argsort(p))
         elif state == "from-sptensor":
             # the result of one operation fed into the next: a converted sparse tensor
-            T = gen.build_sptensor(gen.sparse_case_from_dense(X)).to_tensor()
+            T = as_sptensor(X, "sorted", dict(state="ctor"))[0].to_tensor()
         elif state == "from-ttensor":
             # ... a reconstructed Tucker tensor with permutation factors (exact)
             T = as_ttensor(dict(case, family="other", state="ctor", dtype="float"), X, True).full()
@@ -273,20 +446,31 @@ SPTENSOR_STATES = ["ctor", "ctor", "random-order", "explicit-zeros", "explicit-z
                    "round-trip-permute", "zeroed-by-assignment"]
 
 
+def nonzeros_F(X):
+    """subscripts (nnz x N int array) and values (nnz x 1) of the nonzeros of X, first subscript fastest"""
+    subs = np.argwhere(X != 0).reshape(-1, X.ndim)
+    if len(subs) and X.ndim:
+        lin = np.ravel_multi_index(tuple(subs.T), X.shape, order="F")
+        subs = subs[np.argsort(lin, kind="stable")]
+    vals = np.asarray(X[tuple(subs.T)], dtype=float).reshape(-1, 1)
+    return subs.astype(int), vals
+
+
 def as_sptensor(X, stored="sorted", case=None):
     """sparse holder; returns (object, state label) when a case is given, else the object (old call form)"""
     old_form = case is None
     case = case or {}
-    sc = gen.sparse_case_from_dense(X)
-    if stored == "reverse":
-        sc["subs"], sc["vals"] = sc["subs"][::-1], sc["vals"][::-1]
     if old_form:
+        sc = gen.sparse_case_from_dense(X)
+        if stored == "reverse":
+            sc["subs"], sc["vals"] = sc["subs"][::-1], sc["vals"][::-1]
         return gen.build_sptensor(sc)
     shape = tuple(X.shape)
-    nnz = len(sc["subs"])
-    subs = np.array(sc["subs"], dtype=int).reshape(nnz, X.ndim)
+    subs, vals = nonzeros_F(X)
+    if stored == "reverse":
+        subs, vals = subs[::-1].copy(), vals[::-1].copy()
+    nnz = len(subs)
     dt = int_dtype_of(case, X)
-    vals = np.array(sc["vals"], dtype=float).reshape(-1, 1)
     label = None
     if dt is not None:
         vals = vals.astype(dt)
@@ -297,7 +481,7 @@ def as_sptensor(X, stored="sorted", case=None):
     rng = np.random.default_rng(int(case.get("tseed", 0)) + 5)
     S = None
     try:
-        if nnz == 0:
+        if nnz == 0 and state != "explicit-zeros":
             S = None
         elif state == "random-order":
             p = rng.permutation(nnz)
@@ -352,6 +536,16 @@ def _ktensor_parts(case, X):
     if case["family"] == "cp":
         w, F = cp_parts(case)
         return w.copy(), [f.copy() for f in F]
+    if case["family"] == "kruskal":
+        return kruskal_parts(case)
+    if case["family"] == "zero" and case.get("tseed", 0) % 3 != 2:
+        # the all-zero tensor as zero weights on generic factors, or as one zero factor matrix
+        rng = np.random.default_rng(int(case.get("tseed", 0)))
+        F = [rng.integers(-3, 4, size=(I, 2)).astype(float) for I in X.shape]
+        if case.get("tseed", 0) % 3 == 0:
+            return np.zeros(2), F
+        F[case["kmode"]][...] = 0.0
+        return np.array([2.0, -1.0]), F
     km = case["kmode"]
     shape = X.shape
     others = [k for k in range(len(shape)) if k != km]
@@ -404,8 +598,11 @@ def _ttensor_parts(case, X, sparse_core):
     block family (whose exact structure a rotation would blur): X with permuted indices, permutation-matrix factors."""
     shape = X.shape
     N = len(shape)
-    if case["family"] == "cp":
-        w, F = cp_parts(case)
+    if case["family"] == "tucker":
+        core, fm = tucker_parts(case)
+        return core, fm, "tucker-born"
+    if case["family"] in ("cp", "kruskal"):
+        w, F = cp_parts(case) if case["family"] == "cp" else kruskal_parts(case)
         R = len(w)
         core = np.zeros((R,) * N)
         for j in range(R):
@@ -423,7 +620,7 @@ def _ttensor_parts(case, X, sparse_core):
             fm.append(Pm)
         return core, fm, "tucker-permutation"
     Q = [orth(case["tseed"] + 31 * k, I, I) for k, I in enumerate(shape)]
-    return ref.den_tucker(X, [q.T for q in Q]), Q, "tucker-rotation"
+    return den_tucker(X, [q.T for q in Q]), Q, "tucker-rotation"
 
 
 def as_ttensor(case, X, sparse_core, with_label=False, sparse_factors=False):
@@ -438,10 +635,9 @@ def as_ttensor(case, X, sparse_core, with_label=False, sparse_factors=False):
         label = "dtype-" + dt
     c = None
     if sparse_core:
-        sc = gen.sparse_case_from_dense(core)
-        if sc["subs"]:
-            subs = np.array(sc["subs"], dtype=int).reshape(len(sc["subs"]), core.ndim)
-            vals = np.array([core[tuple(s)] for s in subs]).reshape(-1, 1)
+        subs = nonzeros_F(core)[0]
+        if len(subs):
+            vals = np.asarray(core[tuple(subs.T)]).reshape(-1, 1)
             if state == "derived-core":
                 # stored order random, explicit zero, numpy-integer shape: states the checked constructor call accepts
                 rng = np.random.default_rng(int(case.get("tseed", 0)) + 11)
@@ -612,18 +808,228 @@ def large_case(draw, tier, states=("ctor",)):
     return c
 
 
+# ----------------------------------------------------------------------------------------------------------------
+# round 3 strategies: structured forms (exactly special / epsilon-perturbed / generic), extreme magnitudes, extreme
+# dynamic range, degenerate requests; a few large cases
+# ----------------------------------------------------------------------------------------------------------------
+
+SPECTRA3 = ["steep-tail", "steep-tail", "near-threshold", "near-threshold", "rank-one", "low-rank", "rank-deficient", "geometric", "close-pair"]
+SCALES3 = [1.0, 1.0, 1e-9, 1e-12, 1e-15, 1e9, 1e12, 1e15, 1e-6, 1e6]
+BALANCE = [0, 30, -30, 60, -60]
+
+
+@st.composite
+def _spectral_fields(draw, shape, n, kinds=tuple(SPECTRA3), scales=tuple(SCALES3)):
+    I = shape[n]
+    m = min(I, ref.prod(shape) // I)
+    kind = draw(st.sampled_from(list(kinds)))
+    return dict(family="spectral", shape=list(shape), n=n, spectrum=kind, sing=spectrum(kind, m, draw(st.sampled_from(list(scales)))),
+                useed=draw(SEEDS), wseed=draw(SEEDS))
+
+
+@st.composite
+def _sparse_fields(draw, shape, dtype, scales=(1.0, 1.0, 1e-6, 1e6, 0.3)):
+    n_cells = ref.prod(shape)
+    pattern = draw(st.sampled_from(["one", "some", "some", "all"]))
+    flat = gen._pattern_values(draw, n_cells, pattern, "int")
+    if all(v == 0 for v in flat):
+        flat[draw(st.integers(0, n_cells - 1))] = 2.0
+    if dtype == "uint8":
+        flat = [abs(v) for v in flat]
+    s2 = gen.sparse_case_from_dense(gen.arr_F(shape, flat))
+    return dict(family="sparse", shape=list(shape), subs=s2["subs"], vals=s2["vals"], spectrum="sparse-" + pattern,
+                vscale=1.0 if dtype in INT_DTYPES else draw(st.sampled_from(list(scales))))
+
+
+@st.composite
+def _matrix_spec(draw, kinds, N):
+    kind = draw(st.sampled_from(list(kinds)))
+    eps = 0.0
+    if kind != "generic" and draw(st.booleans()):
+        eps = draw(st.sampled_from(EPS_LIST))
+    return dict(kind=kind, seed=draw(SEEDS), eps=eps, pmode=draw(st.sampled_from([None, None] + list(range(N)))) if eps else None)
+
+
+def _r_pool(I, extra=()):
+    inner = list(range(2, I))
+    return [1, I, max(1, I - 1)] + inner + inner + [v for v in extra if 1 <= v <= I]
+
+
+STRUCTURED_FAMILIES = {
+    "tensor": ["spectral"] * 8 + ["zero", "tucker", "kruskal"],
+    "sptensor": ["spectral"] * 6 + ["sparse", "sparse", "zero", "tucker", "kruskal"],
+    "ktensor": ["kruskal"] * 10 + ["spectral"] * 3 + ["zero"],
+    "ttensor": ["tucker"] * 10 + ["kruskal"] * 3 + ["spectral"] * 2 + ["zero"],
+}
+
+
+@st.composite
+def structured_case(draw, tier, cls="tensor", states=("ctor",)):
+    fam = draw(st.sampled_from(STRUCTURED_FAMILIES[cls]))
+    shape, n = draw(_shape_with_mode(tier))
+    N = len(shape)
+    c = dict(family=fam, n=n, np_seed=draw(st.integers(0, 2 ** 31 - 1)), flipsign=draw(st.sampled_from([True, True, False])),
+             stored=draw(st.sampled_from(["sorted", "reverse"])), tseed=draw(SEEDS), kmode=draw(st.integers(0, N - 1)))
+    c.update(draw(_common_fields(states)))
+    extra_r = []
+    if fam == "spectral":
+        c.update(draw(_spectral_fields(shape, n)))
+    elif fam == "sparse":
+        c.update(draw(_sparse_fields(shape, c["dtype"], scales=SCALES3)))
+    elif fam == "zero":
+        c.update(shape=shape, spectrum="zero")
+    elif fam == "tucker":
+        # `shape` is the core's; the tensor's mode sizes are the row counts of the factor matrices
+        cf = draw(st.sampled_from(["spectral"] * 8 + ["sparse"] * 3 + ["zero"]))
+        if cf == "spectral":
+            core = draw(_spectral_fields(shape, n))
+        elif cf == "sparse":
+            core = draw(_sparse_fields(shape, c["dtype"], scales=SCALES3))
+        else:
+            core = dict(family="zero", shape=shape, spectrum="zero")
+        tf = draw(_matrix_spec(MATRIX_KINDS + ["orthonormal", "identity"], N))
+        form = draw(st.sampled_from(["square", "square", "tall", "tall", "wide"]))
+        if form == "square":
+            rows = list(shape)
+        elif form == "tall":
+            rows = [J + draw(st.sampled_from([0, 0, 1, 2])) for J in shape]
+            rows[n] = shape[n] + draw(st.sampled_from([0, 1, 1, 3]))
+        else:
+            k = draw(st.integers(0, N - 1))
+            rows = [max(1, J - 1) if i == k else J for i, J in enumerate(shape)]
+        tf["rows"] = rows
+        tf["balance"] = [draw(st.sampled_from(BALANCE)) for _ in range(N)] if draw(st.integers(0, 4)) == 0 else None
+        extra_r = [shape[n], shape[n], shape[n] + 1]
+        c.update(shape=rows, core=core, tf=tf, spectrum="tucker-" + str(core.get("spectrum")))
+    else:  # kruskal
+        kf = draw(_matrix_spec(["orthonormal", "orthonormal", "orthonormal", "permutation", "unit-columns", "generic"], N))
+        Rmax = min(shape) if kf["kind"] in ("orthonormal", "permutation") else 7
+        R = draw(st.integers(1, max(1, min(Rmax, 6 if kf["kind"] in ("orthonormal", "permutation") else 7))))
+        wkind = draw(st.sampled_from(["equal", "near-equal", "near-equal", "geometric", "slow-decay", "zero-weight"]))
+        scale = draw(st.sampled_from(SCALES3))
+        if wkind == "equal":
+            w = [1.0] * R
+        elif wkind == "near-equal":
+            g = draw(st.sampled_from([1.1e-3, 2e-3, 5e-3]))
+            w = [float(np.sqrt(1.0 - g * j)) for j in range(R)]
+        elif wkind == "geometric":
+            w = [0.5 ** j for j in range(R)]
+        else:
+            w = [1.0 - 0.04 * j for j in range(R)]
+        if wkind == "zero-weight" and R >= 2:
+            w[draw(st.integers(0, R - 1))] = 0.0
+        signs = draw(st.lists(st.sampled_from([1.0, 1.0, -1.0]), min_size=R, max_size=R))
+        kf["balance"] = [draw(st.sampled_from(BALANCE)) for _ in range(R)] if draw(st.integers(0, 4)) == 0 else None
+        c.update(shape=shape, kf=kf, weights=[scale * a * b for a, b in zip(w, signs)], wkind=wkind, spectrum="kruskal-" + wkind)
+        extra_r = [R, R, R + 1]
+    I = c["shape"][n]
+    c["r"] = draw(st.sampled_from(_r_pool(I, extra_r)))
+    return c
+
+
+XL_FAMILIES = {"tensor": ["bigblock", "bigspectral"], "sptensor": ["bigblock"], "ktensor": ["bigblock", "bigcp", "bigcp"],
+               "ttensor": ["bigblock", "bigtucker", "bigtucker"]}
+
+
+@st.composite
+def xlarge_case(draw, tier, cls="tensor", states=("ctor",)):
+    """a few large cases: mode sizes 60..200, sparse data with 1e4+ stored entries, Kruskal / Tucker forms with tall factors;
+    everything expanded from seeds, judged by dense NumPy on the expanded array (at most a few 1e5 cells)"""
+    fam = draw(st.sampled_from(XL_FAMILIES[cls]))
+    c = dict(np_seed=draw(st.integers(0, 2 ** 31 - 1)), flipsign=draw(st.sampled_from([True, True, False])),
+             stored=draw(st.sampled_from(["sorted", "reverse"])), tseed=draw(SEEDS))
+    c.update(draw(_common_fields(states)))
+    c["dtype"] = "float"
+    if fam in ("bigblock", "bigspectral", "bigcp"):
+        I = draw(st.sampled_from([60, 100, 150, 200, 200]))
+        if fam == "bigblock":
+            rest = list(draw(st.sampled_from([[20, 16], [16, 20], [350], [8, 6, 7], [24, 15], [330]])))
+        elif fam == "bigspectral":
+            I = min(I, 128)
+            rest = list(draw(st.sampled_from([[8, 9], [70], [5, 4, 4], [40]])))
+        else:
+            rest = list(draw(st.sampled_from([[30, 12], [40], [12, 10, 8], [25, 25]])))
+        n = draw(st.integers(0, len(rest)))
+        shape = rest[:n] + [I] + rest[n:]
+        P = ref.prod(rest)
+        c.update(shape=shape, n=n, kmode=n)
+        if fam == "bigblock":
+            nb = draw(st.sampled_from([3, 5, 8, 12]))
+            c.update(family="bigblock", nb=nb, bcols=P // nb, bseed=draw(SEEDS), fill=draw(st.sampled_from([0, 500, 3000])),
+                     vscale=draw(st.sampled_from([1.0, 1.0, 1e-12, 1e12, 1e-6])), spectrum="bigblock")
+            pool = [1, 2, nb - 1, nb, nb, nb + 2, I - 2, I - 1, I]
+        elif fam == "bigspectral":
+            c.update(draw(_spectral_fields(shape, n, kinds=["slow-decay", "geometric", "steep-tail", "near-threshold"])))
+            pool = [1, 2, 3, 5, 12, 25, I - 2, I - 1, I]
+        else:
+            R = draw(st.sampled_from([2, 5, 8, 12]))
+            R = min(R, min(shape))
+            base = draw(st.sampled_from(["slow-decay", "slow-decay", "close-pair"]))
+            sig = spectrum(base, R, draw(st.sampled_from([1.0, 1e-9, 1e9, 8.0])))
+            signs = draw(st.lists(st.sampled_from([1.0, 1.0, -1.0]), min_size=R, max_size=R))
+            c.update(family="cp", rank=R, sigma=[a * b for a, b in zip(sig, signs)], fseed=draw(SEEDS), spectrum="cp-" + base,
+                     noise=dict(rank=1, weights=[abs(sig[-1]) * 1e-4]) if draw(st.booleans()) else None)
+            pool = [1, 2, R - 1, R, R, R + 1, I - 2, I - 1, I]
+    else:  # bigtucker
+        J = list(draw(st.sampled_from([[6, 5, 4], [8, 7], [5, 4, 3, 3], [12, 10], [4, 9, 5]])))
+        N = len(J)
+        n = draw(st.integers(0, N - 1))
+        I = draw(st.sampled_from([60, 100, 150, 200]))
+        rows = [J[k] + draw(st.sampled_from([0, 10, 30])) for k in range(N)]
+        rows[n] = I
+        core = draw(_spectral_fields(J, n, kinds=["slow-decay", "geometric", "near-threshold", "close-pair"]))
+        tf = draw(_matrix_spec(["orthonormal", "orthonormal", "generic", "unit-columns", "permutation", "identity"], N))
+        tf.update(rows=rows, balance=None)
+        c.update(family="tucker", shape=rows, n=n, kmode=n, core=core, tf=tf, spectrum="tucker-" + core["spectrum"])
+        pool = [1, 2, J[n] - 1, J[n], J[n], J[n] + 1, I - 2, I - 1, I]
+    c["r"] = draw(st.sampled_from([v for v in pool if 1 <= v <= I]))
+    return c
+
+
+# sparse tensors whose modes other than n are long: the stored entries sit at a handful of indices of a mode of length
+# 2**40 .. 2**62 (also 2**53 and 2**53+1, which float64 cannot tell apart; products of mode lengths beyond 2**63)
+LONG_LENGTHS = [2 ** 16, 2 ** 40, 2 ** 40, 2 ** 53 + 7, 2 ** 60, 2 ** 62]
+
+
+@st.composite
+def long_case(draw, tier):
+    shape, n = draw(_shape_with_mode(tier, min_order=2))
+    N = len(shape)
+    c = dict(np_seed=draw(st.integers(0, 2 ** 31 - 1)), flipsign=draw(st.sampled_from([True, True, False])), tseed=draw(SEEDS),
+             npint=draw(st.sampled_from([None, None, "int64"])))
+    c.update(draw(_spectral_fields(shape, n, kinds=SPECTRA, scales=SCALES)))
+    others = [k for k in range(N) if k != n]
+    chosen = draw(st.lists(st.sampled_from(others), min_size=1, max_size=min(2, len(others)), unique=True))
+    long = {}
+    for k in chosen:
+        # never in between: the unrepaired code needs memory proportional to the product of the other modes' lengths, so
+        # that product is either small (<= 2**16 * 72) or hopeless (>= 2**40)
+        L = draw(st.sampled_from(LONG_LENGTHS if len(chosen) == 1 else LONG_LENGTHS[1:]))
+        cand = sorted({v for v in (0, 1, 2, 3, 7, L - 1, L - 2, L // 2, L // 3, 2 ** 24 + 1, 2 ** 31, 2 ** 32 + 1, 2 ** 53, 2 ** 53 + 1, 2 ** 53 + 2)
+                       if 0 <= v < L})
+        idx = draw(st.lists(st.integers(0, len(cand) - 1), min_size=shape[k], max_size=shape[k], unique=True))
+        long[str(k)] = dict(L=L, used=sorted(cand[i] for i in idx))
+    c["long"] = long
+    I = shape[n]
+    c["r"] = draw(st.sampled_from(_r_pool(I)))
+    return c
+
+
 EDIT_KINDS = ["scale-slice", "scale-slice", "shear", "shear", "set-entry", "scale-all", "zero-slice", "move-entry"]
 EDIT_VALUES = [4.0, -3.0, 0.5, 2.0, -1.0, 1.75]
 
 
 @st.composite
-def history_case(draw, tier, states=("ctor",)):
+def history_case(draw, tier, states=("ctor",), cls=None):
     """a model plus 2..4 steps on ONE object: optional in-place edit of one attribute array, then nvecs(n, r, flipsign)
     on the object (or on a fresh object made from copies of its current attributes), optionally overwriting the
     returned array afterwards"""
-    big = draw(st.integers(0, 9)) == 0
-    if big:
+    big = draw(st.integers(0, 9))
+    if big == 0:
         c = draw(large_case(tier, states=states))
+    elif big <= 2 and cls is not None:
+        # forms with exactly special / perturbed / generic factors, extreme magnitudes, the all-zero tensor
+        c = draw(structured_case(tier, cls=cls, states=states))
     else:
         c = draw(model_case(tier, families=("spectral", "spectral", "cp", "sparse"), states=states))
     c["dtype"] = "float"
@@ -640,10 +1046,15 @@ def history_case(draw, tier, states=("ctor",)):
             edit = dict(kind=draw(st.sampled_from(EDIT_KINDS)), arr=draw(st.integers(0, 7)), axis=draw(st.integers(0, 3)),
                         i=draw(st.integers(0, 63)), j=draw(st.integers(0, 63)), val=draw(st.sampled_from(EDIT_VALUES)))
         steps.append(dict(n=n, r=min(r, I), flipsign=draw(st.sampled_from([True, True, False])) if i else c["flipsign"], edit=edit,
-                          fresh=draw(st.integers(0, 5)) == 0 if i else False, clobber=draw(st.integers(0, 3)) == 0,
+                          fresh=draw(st.sampled_from([None] * 8 + TWINS)) if i else None, clobber=draw(st.integers(0, 3)) == 0,
                           np_seed=draw(st.integers(0, 2 ** 31 - 1))))
     if not any(s["edit"] for s in steps[1:]) and draw(st.booleans()):
         steps[-1]["edit"] = dict(kind="shear", arr=draw(st.integers(0, 7)), axis=0, i=draw(st.integers(0, 63)), j=draw(st.integers(0, 63)), val=2.0)
+    # a history that forks: before step i a copy is made through the public API; the history goes on with the original
+    # or with the copy, and the other one is judged again at the very end
+    if draw(st.integers(0, 2)) == 0:
+        steps[draw(st.integers(1, k - 1))]["fork"] = dict(how=draw(st.sampled_from(["public-copy", "deepcopy"])),
+                                                         go_on_with=draw(st.sampled_from(["original", "copy"])))
     c["steps"] = steps
     return c
 
@@ -703,6 +1114,41 @@ def apply_edit(obj, e):
     return "edit-" + kind
 
 
+TWINS = ["ctor-copy", "public-copy", "deepcopy", "shared"]
+
+
+def twin(obj, how):
+    """a second live object denoting the same array: made by the constructor from copies of the attributes, by the
+    public copy(), by copy.deepcopy, or by the constructor with copy=False from the very same attribute arrays (then
+    both objects share their state).  None when that does not work or does not reproduce the array (other
+    properties judge copying)."""
+    import copy as _copy
+
+    try:
+        if how in (True, "ctor-copy"):
+            t = fresh_copy(obj)
+        elif how == "public-copy":
+            t = obj.copy()
+        elif how == "deepcopy":
+            t = _copy.deepcopy(obj)
+        elif how == "shared":
+            if isinstance(obj, ttb.tensor):
+                t = ttb.tensor(obj.data, tuple(int(v) for v in obj.shape), copy=False)
+            elif isinstance(obj, ttb.sptensor):
+                t = ttb.sptensor(obj.subs, obj.vals, tuple(int(v) for v in obj.shape), copy=False)
+            elif isinstance(obj, ttb.ktensor):
+                t = ttb.ktensor(list(obj.factor_matrices), obj.weights, copy=False)
+            else:
+                t = ttb.ttensor(obj.core, list(obj.factor_matrices), copy=False)
+        else:
+            return None
+        if type(t) is not type(obj) or not ref.same_exact(den(t), den(obj)):
+            return None
+        return t
+    except Exception:  # noqa: BLE001
+        return None
+
+
 def fresh_copy(obj):
     """a new object made through the constructor from copies of the current attributes"""
     if isinstance(obj, ttb.tensor):
@@ -756,6 +1202,30 @@ def reference(X, n):
     lam, V = lam[order], V[:, order]
     lam = np.maximum(lam, 0.0)
     return G, lam, V
+
+
+NEGLIGIBLE = 1e-9  # eigenvalues below NEGLIGIBLE * lambda_1 form the "numerically zero" tail
+
+
+def spectrum_class(lam, r):
+    """(k, class) for the request r:
+    ("separated", k = r)    the r leading eigenvalues are pairwise separated and separated from the (r+1)-th;
+    ("separated-then-negligible", k < r)   the k leading eigenvalues are separated like that and everything from the
+                            (k+1)-th on is below NEGLIGIBLE * lambda_1 (rank-deficient unfolding with r beyond the rank, a
+                            spectrum that drops by many decades; k = 0: the all-zero tensor);
+    ("not-separated", 0)    anything else (ties or close values among the requested ones)."""
+    lam = np.asarray(lam, dtype=float)
+    if lam[0] <= 0:
+        return 0, "separated-then-negligible"
+    if separated(lam, r):
+        return r, "separated"
+    gaps = -np.diff(lam[: min(r + 1, len(lam))])
+    k = 0
+    while k < len(gaps) and gaps[k] >= SEP * lam[0]:
+        k += 1
+    if 1 <= k < r and lam[k] <= NEGLIGIBLE * lam[0]:
+        return k, "separated-then-negligible"
+    return 0, "not-separated"
 
 
 def separated(lam, r):
